@@ -70,19 +70,28 @@ Section Cache.
 
   (** [insert]:
 <<
+      if self.max_size == 0 { return; }
       if cache.len() >= self.max_size {
           if let Some(key) = cache.keys().next().cloned() { cache.remove(&key); evictions += 1 }
       }
       cache.insert(signature, entry);
 >>
+      A cache of capacity 0 stores nothing (the early return; before that repair an empty map "at
+      capacity" evicted nothing and then grew to one entry).
       [victim] is the key the run evicted ([None]: no eviction).  The result is [None] when the
-      oracle's choice is impossible for the code: an eviction below capacity, no eviction at capacity
-      with a non-empty map, or a victim that is not a key of the map.  Note that the eviction happens
-      before the insertion and regardless of whether [k] is already bound, and that an empty map at
-      capacity (only possible for [max_size = 0]) evicts nothing and then grows to one entry. *)
+      oracle's choice is impossible for the code: any eviction at capacity 0, an eviction below
+      capacity, no eviction at capacity with a non-empty map, or a victim that is not a key of the
+      map.  Note that the eviction happens before the insertion and regardless of whether [k] is
+      already bound.  (With the early return the empty-map-at-capacity branch of the eviction is only
+      reachable for a negative [cap], which a [usize] cannot be; it is kept as transcribed.) *)
   Definition is_empty (c : cache) : bool := match c with [] => true | _ => false end.
   Definition insert (cap : Z) (c : cache) (k : K) (e : entry) (victim : option K) : option cache :=
-    if cap <=? size c then
+    if cap =? 0 then
+      match victim with
+      | None => Some c
+      | Some _ => None
+      end
+    else if cap <=? size c then
       match victim with
       | None => if is_empty c then Some (put c k e) else None
       | Some v => if contains c v then Some (put (remove v c) k e) else None
